@@ -231,7 +231,9 @@ def make_search(mido, depth, base=(0, 0)):
                 pass
             return None
         if k == 'add_track':
-            f.add_track()
+            # add_track returns the new track, which is then edited
+            t = f.add_track()
+            t.append(note(0))
         elif k == 'add_track_named':
             f.add_track('n')
         elif k == 'append_track':
